@@ -153,6 +153,10 @@ fn run_root<'tcx>(tcx: TyCtxt<'tcx>, did: rustc_span::def_id::DefId, cfg: Option
                     bad = Some(s);
                     break;
                 }
+                Err(Stop::Unwind) => {
+                    bad = Some("unwind while building inputs".into());
+                    break;
+                }
             }
         }
         if let Some(s) = bad {
@@ -173,6 +177,16 @@ fn run_root<'tcx>(tcx: TyCtxt<'tcx>, did: rustc_span::def_id::DefId, cfg: Option
                 status = format!("unsupported: {} [at {}]", s, at.join(" <- "));
                 paths.push(format!("{{\"conds\":[{}],\"out\":\"unsupported\",\"events\":{}}}", conds.join(","), events_json(&m.events)));
                 break;
+            }
+            Ok(Err(Stop::Unwind)) => {
+                // the final state behind every `&mut` argument is what the caller sees after catching the panic
+                let mut muts = vec![];
+                for (n, p, t) in &arg_ptrs {
+                    if let Ok(pv) = m.load(p, *t) {
+                        muts.push(format!("{}:{}", jstr(n), val_json(&mut m, &pv, Some(*t), 1)));
+                    }
+                }
+                paths.push(format!("{{\"conds\":[{}],\"out\":\"unwind\",\"muts\":{{{}}},\"events\":{}}}", conds.join(","), muts.join(","), events_json(&m.events)));
             }
             Ok(Err(Stop::Panic(s))) => {
                 paths.push(format!("{{\"conds\":[{}],\"out\":\"panic\",\"panic\":{},\"events\":{}}}", conds.join(","), jstr(&s), events_json(&m.events)));
